@@ -200,9 +200,11 @@ func (pnf *PageNumberFinder) getPageInfoAndText(link *html.Node, pageURL *nurl.U
 	}
 
 	if isEmptyHref || isJavascriptLink {
+		// Such a link is only a placeholder for its page number: it has no URL
+		// that could be followed, so it must never become a pagination URL.
 		return &info.PageInfo{
 			PageNumber: number,
-			URL:        linkHref,
+			URL:        "",
 		}, linkText
 	}
 
